@@ -55,6 +55,7 @@ func cmdCheck(argv []string) int {
 	only := fs.String("only", "", "only functions whose name contains this")
 	verbose := fs.Bool("v", false, "verbose")
 	noEvidence := fs.Bool("no-evidence", false, "do not write evidence")
+	writeHints := fs.Bool("write-hints", false, "record in /verif/solver_hints.json which back end decided each obligation that z3-new did not decide first (tool mode)")
 	fs.Parse(argv)
 	start := time.Now()
 	seed := 0
@@ -192,6 +193,23 @@ func cmdCheck(argv []string) int {
 	}
 	tExec := time.Since(start).Seconds()
 	reps := discharge(results, timeout, shortFor)
+	if *writeHints {
+		hints := loadHints()
+		for k := range hints {
+			if strings.HasPrefix(k, *prop+"/") {
+				delete(hints, k)
+			}
+		}
+		for _, rep := range reps {
+			sv := strings.TrimSuffix(rep.Solver, "/qf")
+			if rep.Status == "discharged" && (sv == "z3" || sv == "cvc5") {
+				hints[rep.Name] = sv
+			}
+		}
+		if b, err := json.MarshalIndent(hints, "", " "); err == nil {
+			os.WriteFile("/verif/solver_hints.json", b, 0o644)
+		}
+	}
 	reps = append(reps, extraReps...)
 	tSolve := time.Since(start).Seconds() - tExec
 	defer func() { fmt.Fprintf(os.Stderr, "timing: load+exec %.1fs, discharge %.1fs\n", tExec, tSolve) }()
